@@ -294,7 +294,13 @@ def r5(ctx, chk):
     res = [n.targets[0].elts[0].id for n in iter_own_nodes(f.node) if isinstance(n, ast.Assign) and isinstance(n.targets[0], ast.Tuple)
            and isinstance(n.value, ast.Call) and ast.unparse(n.value.func) == "parse_method" and isinstance(n.targets[0].elts[0], ast.Name)]
     dob = res[0] if res else "date_obj"
-    attach = {"%s.localize(%s)" % (ptz, dob), "%s.replace(tzinfo=%s)" % (dob, ptz)}
+    holders = {dob}          # the parsed value and the locals it is copied to (`value = date_obj` before the block)
+    for _ in range(3):
+        for n in iter_own_nodes(f.node):
+            if isinstance(n, ast.Assign) and len(n.targets) == 1 and isinstance(n.targets[0], ast.Name) and isinstance(n.value, ast.Name) \
+                    and n.value.id in holders:
+                holders.add(n.targets[0].id)
+    attach = {t % (a_, b_) for h_ in holders for t, a_, b_ in (("%s.localize(%s)", ptz, h_), ("%s.replace(tzinfo=%s)", h_, ptz))}
     vals = set()
     if isinstance(first, ast.If):
         for b in (first.body, first.orelse):
